@@ -342,7 +342,6 @@ var unknownAttrs = []string{"<description>x  y</description>",
 	"<negate-source>yes</negate-source>", "<profile-setting><group><member>strict</member></group></profile-setting>",
 	"<tag><member>t1</member><member>t2</member></tag>", ""}
 
-
 func (w *world) deviceVsys(name string) gVsys {
 	v := gVsys{Name: name, Display: "FW-managed-by-Netspoc"}
 	if w.rng.Chance(6) {
@@ -1153,63 +1152,122 @@ func genCase(rng *RNG) caseInput {
 	for _, t := range tgt {
 		in.gen.tgt = append(in.gen.tgt, cloneVsys(t))
 	}
-	// raw / IPv6 parts: a prefix of the rules is prepended from raw or ipv6, a suffix appended
-	// with <APPEND/>.
+	// raw / IPv6 parts, in every vsys of the target: the first rules of a vsys come from the raw file,
+	// the next from the ipv6 file (prepended), the last ones carry <APPEND/> in the ipv6 resp. raw
+	// file; a part may define an address the main file then lacks.  The parts list their vsys in an
+	// order of their own.  `expect` is the merged target the files were cut from.
 	var raw, v6, expect []gVsys
-	if rng.Chance(22) && len(tgt) > 0 {
-		t := &tgt[0]
-		part := gVsys{Name: t.Name}
-		if rng.Bool() && len(t.Rules) > 0 {
-			n := 1 + rng.Intn(len(t.Rules))
-			if n > 2 {
-				n = 2
+	if len(tgt) > 0 && (rng.Chance(22) || (len(tgt) > 1 && rng.Chance(50))) {
+		for _, t := range tgt {
+			expect = append(expect, cloneVsys(t))
+		}
+		useRaw, useV6 := true, true
+		switch rng.Intn(10) {
+		case 0, 1, 2, 3:
+			useV6 = false
+		case 4, 5, 6:
+			useRaw = false
+		}
+		rename := func(r gRule, pre string) gRule {
+			if strings.HasPrefix(r.Name, "r") {
+				r.Name = pre + r.Name
 			}
-			for _, r := range t.Rules[:n] {
-				if !strings.HasPrefix(r.Name, "r") {
-					part.Rules = append(part.Rules, r)
+			return r
+		}
+		for vi := range tgt {
+			if vi > 0 && rng.Chance(25) {
+				continue // a vsys of the main file without any part
+			}
+			t, e := &tgt[vi], &expect[vi]
+			rp, vp := gVsys{Name: t.Name}, gVsys{Name: t.Name}
+			n := len(t.Rules)
+			take := func(max int) int {
+				k := rng.Intn(max + 1)
+				if k > n {
+					k = n
+				}
+				n -= k
+				return k
+			}
+			var a, b, c2, d int
+			if useRaw {
+				a, d = take(2), take(1)
+			}
+			if useV6 {
+				b, c2 = take(1), take(1)
+			}
+			rs := e.Rules // the expected order; names are changed in place below
+			lo, hi := 0, len(rs)
+			for i := 0; i < a; i++ {
+				rs[lo] = rename(rs[lo], "raw-")
+				rp.Rules = append(rp.Rules, rs[lo])
+				lo++
+			}
+			for i := 0; i < b; i++ {
+				rs[lo] = rename(rs[lo], "v6-")
+				vp.Rules = append(vp.Rules, rs[lo])
+				lo++
+			}
+			var rback, vback []gRule
+			for i := 0; i < d; i++ {
+				hi--
+				rs[hi] = rename(rs[hi], "raw-")
+				r := rs[hi]
+				r.Append = true
+				rback = append([]gRule{r}, rback...)
+			}
+			for i := 0; i < c2; i++ {
+				hi--
+				rs[hi] = rename(rs[hi], "v6-")
+				r := rs[hi]
+				r.Append = true
+				vback = append([]gRule{r}, vback...)
+			}
+			// <APPEND/> rules and the others may be interleaved inside a part
+			if rng.Bool() {
+				rp.Rules = append(rback, rp.Rules...)
+				vp.Rules = append(vp.Rules, vback...)
+			} else {
+				rp.Rules = append(rp.Rules, rback...)
+				vp.Rules = append(vback, vp.Rules...)
+			}
+			t.Rules = append([]gRule{}, rs[lo:hi]...)
+			// an address only a part defines
+			if rng.Bool() && len(t.Addrs) > 1 && (useRaw || useV6) {
+				last := t.Addrs[len(t.Addrs)-1]
+				t.Addrs = t.Addrs[:len(t.Addrs)-1]
+				if useRaw && (!useV6 || rng.Bool()) {
+					rp.Addrs = append(rp.Addrs, last)
 				} else {
-					r.Name = "raw-" + r.Name
-					part.Rules = append(part.Rules, r)
+					vp.Addrs = append(vp.Addrs, last)
 				}
 			}
-			t.Rules = t.Rules[n:]
-		}
-		if rng.Bool() && len(t.Rules) > 0 {
-			r := t.Rules[len(t.Rules)-1]
-			t.Rules = t.Rules[:len(t.Rules)-1]
-			r.Append = true
-			if strings.HasPrefix(r.Name, "r") {
-				r.Name = "raw-" + r.Name
+			if useRaw && (len(rp.Rules) > 0 || len(rp.Addrs) > 0 || rng.Chance(30)) {
+				raw = append(raw, rp)
 			}
-			part.Rules = append(part.Rules, r)
+			if useV6 && (len(vp.Rules) > 0 || len(vp.Addrs) > 0 || rng.Chance(30)) {
+				v6 = append(v6, vp)
+			}
 		}
-		// an address only the raw part defines
-		if rng.Bool() && len(t.Addrs) > 1 {
-			part.Addrs = append(part.Addrs, t.Addrs[len(t.Addrs)-1])
-			t.Addrs = t.Addrs[:len(t.Addrs)-1]
+		// the order of the vsys differs between the files
+		if len(raw) > 1 && rng.Chance(60) {
+			raw[0], raw[len(raw)-1] = raw[len(raw)-1], raw[0]
 		}
-		if rng.Chance(60) {
-			raw = append(raw, part)
+		if len(v6) > 1 && rng.Chance(60) {
+			v6[0], v6[len(v6)-1] = v6[len(v6)-1], v6[0]
+		}
+		if raw != nil {
 			w.note("rawPart")
-		} else {
-			v6 = append(v6, part)
+		}
+		if v6 != nil {
 			w.note("ipv6Part")
 		}
-		// what the merged target must be: rules of the part without <APPEND/> in front, those with it
-		// at the end, objects of the part added
-		e := cloneVsys(*t)
-		var front, back []gRule
-		for _, r := range part.Rules {
-			if r.Append {
-				r.Append = false
-				back = append(back, r)
-			} else {
-				front = append(front, r)
-			}
+		if len(raw) > 1 || len(v6) > 1 {
+			w.note("partsInSeveralVsys")
 		}
-		e.Rules = append(append(front, e.Rules...), back...)
-		e.Addrs = append(e.Addrs, part.Addrs...)
-		expect = append([]gVsys{e}, tgt[1:]...)
+		if raw == nil && v6 == nil {
+			expect = nil
+		}
 	}
 	in.Dev = configXML(devName, dev, rng.Chance(30))
 	tgtDev := devName
